@@ -118,6 +118,10 @@ def run(ctx):
         elif r.random() < 0.12:
             # everything read once, a field replaced (the lazy table forgets what it had parsed), then a filter that matches nothing, then everything read again
             script = ["allfields", "replace", "emptymask", "allfields", "write"]
+        replace_sequence_next = False
+        if fname in ("fastq", "fasta2") and r.random() < 0.25:
+            # reads replaced by the same reads from another source (DNA-encoded, a row selection nobody has looked at), and written at once
+            script, blind, replace_sequence_next = ["replace", "write"], True, True
         for step in range(r.randint(1, maxops) if script is None else len(script)):
             nrows = len(E)
             op = script[step] if script else r.choice(["len", "field", "field", "slice", "mask", "fancy", "index", "concat", "replace", "tolist", "write", "write"])
@@ -213,8 +217,17 @@ def run(ctx):
                     with bnp.open(p, "w", buffer_type=wbt) as f:
                         f.write(t)
                     return open(p, "rb").read().decode("latin1")
+                ints_before = {f_: np.asarray(getattr(E, f_)).tolist() for f_ in INT_FIELDS[fname]} if nrows else {}
                 res = both(lambda: wr(L, "l"), lambda: wr(E, "e"))
                 history.append(["write"] if not other_layout else ["write", "with-the-other-delimiter"])
+                if nrows:
+                    # writing (also a write that is refused) leaves the table that was handed to the writer as it was
+                    ints_after = {f_: np.asarray(getattr(E, f_)).tolist() for f_ in INT_FIELDS[fname]}
+                    if ints_after != ints_before:
+                        badf_ = [f_ for f_ in ints_before if ints_before[f_] != ints_after[f_]]
+                        ctx.check(key, False, "%s/table-changed-by-a-%s-write:eager" % (key, "refused" if res[0] == "raised-one" and res[1] == "eager" else "completed"), "column %s of the eagerly read table was %r before the write and is %r after it" % (badf_[0], ints_before[badf_[0]][:4], ints_after[badf_[0]][:4]),
+                                  dict(wit0, program=list(history), field=badf_[0]), None)
+                        return
                 if res[0] == "raised-one":
                     one_sided(res[1], res[2])
                     return
@@ -311,6 +324,8 @@ def run(ctx):
                 if not cands or nrows == 0:
                     continue
                 f, kind = r.choice(cands)
+                if replace_sequence_next:
+                    f, kind = "sequence", "str"
                 perm = np.array(r.sample(range(nrows), nrows), dtype=int)
                 col = getattr(E, f)
                 if kind == "int":
@@ -318,6 +333,13 @@ def run(ctx):
                     newl, newe = newv, newv.copy()
                 else:
                     newl, newe = col[perm], col[perm]        # the column's own array type, rows permuted
+                    if f == "sequence" and (replace_sequence_next or r.random() < 0.6):
+                        texts_ = [str(x) for x in col.tolist()]
+                        if all(set(x.upper()) <= set("ACGT") for x in texts_) and any(texts_):
+                            # the reads come DNA-encoded from somewhere else, as a row selection nobody has looked at
+                            newl = bnp.as_encoded_array([x.upper() for x in texts_], bnp.DNAEncoding)[perm]
+                            newe = bnp.as_encoded_array([x.upper() for x in texts_], bnp.DNAEncoding)[perm]
+                            ctx.count("replacements_with_dna_encoded_views")
                 fl, fe = (lambda: bnp.replace(L, **{f: newl})), (lambda: bnp.replace(E, **{f: newe}))
                 history.append(["replace", f, perm.tolist()])
             else:
